@@ -60,8 +60,9 @@ def _second():
     return r
 
 
-def extract(m, n, r, two, rev, **kw):
+def extract(m, n, r, two, rev, ly=False, **kw):
     ip, lp = e1_get(kw, m, n)
+    LABELS = ["R", "X", "Y", "Y"] if ly else ["R", "X", "X", "Y"]
     g, lex = {}, {}
     eg, elex = {}, {}
     discont = False
@@ -123,6 +124,6 @@ def conds(tier):
         if m * n >= 16:
             sh += ["lp2", "rev"]
         cs.append(Cond("extract-m%d-n%d" % (m, n), "harness.c06:extract",
-                       e1_params(m, n) + [P("r", "int", 1, 4 if not q else 3), P("two", "bool"), P("rev", "bool")],
-                       fixed={"m": m, "n": n}, pre=[e1_wf_expr(m, n)], shard=sh, timeout=600 if q else 3000, functions=FUNCS))
+                       e1_params(m, n) + [P("r", "int", 1, 4 if not q else 3), P("two", "bool"), P("rev", "bool"), P("ly", "bool")],
+                       fixed={"m": m, "n": n}, pre=[e1_wf_expr(m, n), "not ly or (%d >= 3 and two and not rev)" % m], shard=sh, timeout=600 if q else 3000, functions=FUNCS))
     return cs
